@@ -1,34 +1,30 @@
 (* JDocShape.v — the fields the JDoc Exchange 2.0.0 shape requires of each entity, written
-   from the property text (C04): they must be emitted unconditionally (no omitempty). *)
+   from the property text (C04): they must be emitted unconditionally (no omitempty).
+   An entity is identified by its anchor fields (fields only its DTO carries), not by the Go name
+   of the struct: every struct of the regenerated tag table that has all the anchors must satisfy
+   the row, and at least one such struct must exist. *)
 From Coq Require Import List String.
 Import ListNotations.
 Open Scope string_scope.
 
-(* struct (as named in Gen/JsonTags.v) -> fields that must always be present *)
-Definition required_fields : list (string * list string) := [
-  ("Catalog.MarshalJSON.data", ["tags"; "interactions"; "jsight"; "jdocExchangeVersion"]);
-  ("Tag.MarshalJSON.data", ["name"; "title"; "interactionGroups"]);
-  ("TagHTTPInteractionGroup", ["protocol"; "interactions"]);
-  ("TagJsonRpcInteractionGroup", ["protocol"; "interactions"]);
-  ("Server", ["baseUrl"]);
-  ("UserType", ["schema"]);
-  ("HTTPInteraction", ["id"; "protocol"; "httpMethod"; "path"; "tags"]);
-  ("JsonRpcInteraction", ["id"; "protocol"; "path"; "method"; "tags"]);
-  ("HTTPResponse", ["code"; "body"]);
-  ("HTTPResponseBody", ["format"; "schema"]);
-  ("HTTPRequestBody", ["format"; "schema"]);
-  ("HTTPRequestHeaders", ["schema"]);
-  ("HTTPResponseHeaders", ["schema"]);
-  ("Query", ["format"; "schema"]);
-  ("PathVariables", ["schema"]);
-  ("jsonRpcParams", ["schema"]);
-  ("jsonRpcResult", ["schema"]);
-  ("ExchangeContent.marshalJSONObjectOrArray.data", ["children"; "optional"]);
-  ("ExchangeContent.marshalJSONLiteral.data", ["scalarValue"; "optional"])
+(* (entity, anchor fields, fields that must always be present) *)
+Definition required_fields : list (string * list string * list string) := [
+  ("catalog", ["jdocExchangeVersion"], ["tags"; "interactions"; "jsight"; "jdocExchangeVersion"]);
+  ("tag", ["interactionGroups"], ["name"; "title"; "interactionGroups"]);
+  ("tag interaction group", ["protocol"; "interactions"], ["protocol"; "interactions"]);
+  ("server", ["baseUrl"], ["baseUrl"]);
+  ("HTTP interaction", ["httpMethod"], ["id"; "protocol"; "httpMethod"; "path"; "tags"]);
+  ("JSON-RPC interaction", ["method"; "protocol"], ["id"; "protocol"; "path"; "method"; "tags"]);
+  ("HTTP response", ["code"], ["code"; "body"]);
+  ("anything with a format", ["format"], ["format"; "schema"]);
+  (* user types, request/response bodies and headers, query, path variables, JSON-RPC params/result *)
+  ("anything with a schema", ["schema"], ["schema"]);
+  ("container schema node", ["children"; "optional"], ["children"; "optional"]);
+  ("scalar schema node", ["scalarValue"; "optional"], ["scalarValue"; "optional"])
 ].
 
-(* struct -> fields it must NOT have *)
-Definition forbidden_fields : list (string * list string) := [
-  ("ExchangeContent.marshalJSONObjectOrArray.data", ["scalarValue"]);
-  ("ExchangeContent.marshalJSONLiteral.data", ["children"])
+(* (entity, anchor fields, fields it must NOT have) *)
+Definition forbidden_fields : list (string * list string * list string) := [
+  ("container schema node", ["children"; "optional"], ["scalarValue"]);
+  ("scalar schema node", ["scalarValue"; "optional"], ["children"])
 ].
